@@ -8,6 +8,7 @@ CLAIMED = {
  "C04": ("DESIGN.md §5 C04", "AppendJSONString on every string up to N bytes and oj.Writer on tree shapes with symbolic leaves under the option combinations, decoded by a reference JSON decoder and compared with the input; streaming Write with symbolic WriteLimit vs the in-memory text; Sort determinism over all map iteration orders"),
  "C05": ("DESIGN.md §5 C05", "jp.Expr.Get vs a reference selector over concrete data shapes with symbolic indexes, slice bounds, keys and filter constants, every fragment kind in every position"),
  "C06": ("DESIGN.md §5 C06", "no-panic assertions on every path of the parser harnesses (panics are explicit fault branches of the executor)"),
+ "C10": ("DESIGN.md §5 C10", "sen.Writer -> sen.Parser round trip of every string up to N bytes in four contexts (top, element, value, key) and of tree shapes with symbolic leaves under writer options; the oracle is the real parser plus tree equality"),
  "C11": ("DESIGN.md §5 C11", "Has, First, FirstFound, Locate, Walk, GetNodes, FirstNode and Get on gen data against Get, same symbolic path space as C05"),
  "C12": ("DESIGN.md §5 C12", "operator x left kind x right kind matrix with symbolic operand values against the property's typed comparison semantics; totality; ==/!= complement; multi-valued operands; Script.Match vs filter"),
  "C13": ("DESIGN.md §5 C13", "Set/Del/Remove/Modify and their *One forms vs reference mutations at the locations the reference selector picks (whole-tree equality = frame condition), symbolic indexes/bounds/keys"),
